@@ -92,18 +92,63 @@ theorem isDone_markDone_mono (s : State) (r c : Req) (h : isDone s c = true) : i
   rw [markDone_done_mem]
   exact Or.inl h
 
-/-! ### tracking marks: only `track` changes -/
+/-! ### the part of the state that neither tracking marks nor object updates touch -/
+
+structure View where
+  queue : List Req
+  executing : List Req
+  tracking : Bool
+  resident : Option Life
+  restartPending : Option Req
+  resetTo : Option (List Req)
+  started : Bool
+  stopping : Bool
+  sys : Sys
+  runId : Option Nat
+  nextRun : Nat
+  simulated : List Nat
+  stopLog : List (List Track)
+  resets : Nat
+  nextId : Nat
+  cfg : Cfg
+  trackIds : List Nat
+
+def view (s : State) : View :=
+  ⟨s.queue, s.executing, s.tracking, s.resident, s.restartPending, s.resetTo, s.started, s.stopping, s.sys,
+   s.runId, s.nextRun, s.simulated, s.stopLog, s.resets, s.nextId, s.cfg, s.track.map (·.id)⟩
+
+theorem view_eq {s s' : State} (h : view s' = view s) :
+    s'.queue = s.queue ∧ s'.executing = s.executing ∧ s'.tracking = s.tracking ∧ s'.resident = s.resident ∧
+    s'.restartPending = s.restartPending ∧ s'.resetTo = s.resetTo ∧ s'.started = s.started ∧
+    s'.stopping = s.stopping ∧ s'.sys = s.sys ∧ s'.runId = s.runId ∧ s'.nextRun = s.nextRun ∧
+    s'.simulated = s.simulated ∧ s'.stopLog = s.stopLog ∧ s'.resets = s.resets ∧ s'.nextId = s.nextId ∧
+    s'.cfg = s.cfg ∧ s'.track.map (·.id) = s.track.map (·.id) := by
+  simp only [view, View.mk.injEq] at h
+  exact h
+
+@[simp] theorem view_markDone (s : State) (r : Req) : view (markDone s r) = view s := by
+  simp [view]
+
+theorem modTrack_ids (tr : List Track) (i : Nat) (f : Track → Track) (hf : ∀ t, (f t).id = t.id) :
+    (modTrack tr i f).map (·.id) = tr.map (·.id) := by
+  simp only [modTrack, List.map_map]
+  apply List.map_congr_left
+  intro t _
+  simp only [Function.comp]
+  split
+  · exact hf t
+  · rfl
+
+@[simp] theorem addMark_id (t : Track) (m : Mark) : (t.addMark m).id = t.id := by
+  unfold Track.addMark; split <;> rfl
+
+/-! ### tracking marks: only `track` changes, and not its ids -/
 
 section marks
 variable (s s' : State) (i : Nat)
 
 theorem markCancelled_frame (b : Bool) (h : markCancelled s i b = some s') :
-    s'.objs = s.objs ∧ s'.events = s.events ∧ s'.executing = s.executing ∧ s'.done = s.done ∧
-    s'.queue = s.queue ∧ s'.tracking = s.tracking ∧ s'.cfg = s.cfg ∧ s'.nextId = s.nextId ∧
-    s'.resident = s.resident ∧ s'.restartPending = s.restartPending ∧ s'.resetTo = s.resetTo ∧
-    s'.started = s.started ∧ s'.stopping = s.stopping ∧ s'.sys = s.sys ∧ s'.runId = s.runId ∧
-    s'.nextRun = s.nextRun ∧ s'.simulated = s.simulated ∧ s'.stopLog = s.stopLog ∧ s'.resets = s.resets ∧
-    s'.track.map (·.id) = s.track.map (·.id) := by
+    view s' = view s ∧ s'.objs = s.objs ∧ s'.events = s.events ∧ s'.done = s.done := by
   unfold markCancelled at h
   split at h
   · cases h; simp
@@ -112,22 +157,13 @@ theorem markCancelled_frame (b : Bool) (h : markCancelled s i b = some s') :
     · split at h
       · cases h
       · cases h
-        simp only [modTrack, List.map_map, true_and]
-        apply List.map_congr_left
-        intro t _
-        simp only [Function.comp]
-        split
-        · unfold Track.addMark
-          split <;> split <;> rfl
-        · rfl
+        refine ⟨?_, rfl, rfl, rfl⟩
+        simp only [view, View.mk.injEq, true_and]
+        apply modTrack_ids
+        intro t; split <;> simp
 
 theorem markForced_frame (h : markForced s i = some s') :
-    s'.objs = s.objs ∧ s'.events = s.events ∧ s'.executing = s.executing ∧ s'.done = s.done ∧
-    s'.queue = s.queue ∧ s'.tracking = s.tracking ∧ s'.cfg = s.cfg ∧ s'.nextId = s.nextId ∧
-    s'.resident = s.resident ∧ s'.restartPending = s.restartPending ∧ s'.resetTo = s.resetTo ∧
-    s'.started = s.started ∧ s'.stopping = s.stopping ∧ s'.sys = s.sys ∧ s'.runId = s.runId ∧
-    s'.nextRun = s.nextRun ∧ s'.simulated = s.simulated ∧ s'.stopLog = s.stopLog ∧ s'.resets = s.resets ∧
-    s'.track.map (·.id) = s.track.map (·.id) := by
+    view s' = view s ∧ s'.objs = s.objs ∧ s'.events = s.events ∧ s'.done = s.done := by
   unfold markForced at h
   split at h
   · cases h; simp
@@ -136,81 +172,79 @@ theorem markForced_frame (h : markForced s i = some s') :
     · split at h
       · cases h
       · cases h
-        simp only [modTrack, List.map_map, true_and]
-        apply List.map_congr_left
-        intro t _
-        simp only [Function.comp]
-        split
-        · unfold Track.addMark
-          split <;> rfl
-        · rfl
+        refine ⟨?_, rfl, rfl, rfl⟩
+        simp only [view, View.mk.injEq, true_and]
+        apply modTrack_ids
+        intro t; simp
 
 theorem markCompleted_frame (h : markCompleted s i = some s') :
-    s'.objs = s.objs ∧ s'.events = s.events ∧ s'.executing = s.executing ∧ s'.done = s.done ∧
-    s'.queue = s.queue ∧ s'.tracking = s.tracking ∧ s'.cfg = s.cfg ∧ s'.nextId = s.nextId ∧
-    s'.resident = s.resident ∧ s'.restartPending = s.restartPending ∧ s'.resetTo = s.resetTo ∧
-    s'.started = s.started ∧ s'.stopping = s.stopping ∧ s'.sys = s.sys ∧ s'.runId = s.runId ∧
-    s'.nextRun = s.nextRun ∧ s'.simulated = s.simulated ∧ s'.stopLog = s.stopLog ∧ s'.resets = s.resets ∧
-    s'.track.map (·.id) = s.track.map (·.id) := by
+    view s' = view s ∧ s'.objs = s.objs ∧ s'.events = s.events ∧ s'.done = s.done := by
   unfold markCompleted at h
   split at h
   · cases h; simp
   · split at h
     · cases h
     · cases h
-      simp only [modTrack, List.map_map, true_and]
-      apply List.map_congr_left
-      intro t _
-      simp only [Function.comp]
-      split
-      · unfold Track.addMark
-        split <;> split <;> rfl
-      · rfl
+      refine ⟨?_, rfl, rfl, rfl⟩
+      simp only [view, View.mk.injEq, true_and]
+      apply modTrack_ids
+      intro t; split <;> simp
 
 theorem markFailed_frame (h : markFailed s i = some s') :
-    s'.objs = s.objs ∧ s'.events = s.events ∧ s'.executing = s.executing ∧ s'.done = s.done ∧
-    s'.queue = s.queue ∧ s'.tracking = s.tracking ∧ s'.cfg = s.cfg ∧ s'.nextId = s.nextId ∧
-    s'.resident = s.resident ∧ s'.restartPending = s.restartPending ∧ s'.resetTo = s.resetTo ∧
-    s'.started = s.started ∧ s'.stopping = s.stopping ∧ s'.sys = s.sys ∧ s'.runId = s.runId ∧
-    s'.nextRun = s.nextRun ∧ s'.simulated = s.simulated ∧ s'.stopLog = s.stopLog ∧ s'.resets = s.resets ∧
-    s'.track.map (·.id) = s.track.map (·.id) := by
+    view s' = view s ∧ s'.objs = s.objs ∧ s'.events = s.events ∧ s'.done = s.done := by
   unfold markFailed at h
   split at h
   · cases h; simp
   · split at h
     · cases h
     · cases h
-      simp only [modTrack, List.map_map, true_and]
-      apply List.map_congr_left
-      intro t _
-      simp only [Function.comp]
-      split
-      · unfold Track.addMark
-        split <;> rfl
-      · rfl
+      refine ⟨?_, rfl, rfl, rfl⟩
+      simp only [view, View.mk.injEq, true_and]
+      apply modTrack_ids
+      intro t; simp
 
 theorem markUodStarted_frame (ser : Nat) (h : markUodStarted s i ser = some s') :
-    s'.objs = s.objs ∧ s'.events = s.events ∧ s'.executing = s.executing ∧ s'.done = s.done ∧
-    s'.queue = s.queue ∧ s'.tracking = s.tracking ∧ s'.cfg = s.cfg ∧ s'.nextId = s.nextId ∧
-    s'.resident = s.resident ∧ s'.restartPending = s.restartPending ∧ s'.resetTo = s.resetTo ∧
-    s'.started = s.started ∧ s'.stopping = s.stopping ∧ s'.sys = s.sys ∧ s'.runId = s.runId ∧
-    s'.nextRun = s.nextRun ∧ s'.simulated = s.simulated ∧ s'.stopLog = s.stopLog ∧ s'.resets = s.resets ∧
-    s'.track.map (·.id) = s.track.map (·.id) := by
+    view s' = view s ∧ s'.objs = s.objs ∧ s'.events = s.events ∧ s'.done = s.done := by
   unfold markUodStarted at h
   split at h
   · cases h; simp
   · split at h
     · cases h
     · cases h
-      simp only [modTrack, List.map_map, true_and]
-      apply List.map_congr_left
-      intro t _
-      simp only [Function.comp]
+      refine ⟨?_, rfl, rfl, rfl⟩
+      simp only [view, View.mk.injEq, true_and]
+      apply modTrack_ids
+      intro t; dsimp only; split <;> simp
+
+theorem markReqCancelled_frame (h : markReqCancelled s i = some s') :
+    view s' = view s ∧ s'.objs = s.objs ∧ s'.events = s.events ∧ s'.done = s.done := by
+  unfold markReqCancelled at h
+  split at h
+  · cases h; rename_i h1; exact markCancelled_frame _ _ _ _ h1
+  · split at h
+    · exact markCancelled_frame _ _ _ _ h
+    · cases h
+
+theorem getTrack_isSome (tr : List Track) : (getTrack tr i).isSome = true ↔ i ∈ tr.map (·.id) := by
+  unfold getTrack
+  simp [List.find?_isSome]
+
+/-- With the repair, the tracking call of `_cancel_command` fails only if the record is missing. -/
+theorem markReqCancelled_isSome (hfix : s.cfg.fixCancel = true)
+    (ht : s.tracking = true → i ∈ s.track.map (·.id)) : (markReqCancelled s i).isSome = true := by
+  unfold markReqCancelled
+  split
+  · rfl
+  · rw [if_pos hfix]
+    unfold markCancelled
+    split
+    · rfl
+    · rename_i htr
+      have htr : s.tracking = true := by simpa using htr
+      have := (getTrack_isSome i s.track).mpr (ht htr)
       split
-      · split
-        · unfold Track.addMark; split <;> rfl
-        · unfold Track.addMark; split <;> split <;> rfl
-      · rfl
+      · rename_i hn; rw [hn] at this; cases this
+      · simp
 
 end marks
 
